@@ -2,5 +2,5 @@ SPECIFICATION Spec
 CONSTANTS
   Narrow8 = FALSE
   AnyEchoSrc = FALSE
-INVARIANTS C01_Design C02_Design C04_Design C09_Design Unsup_Design
+INVARIANTS C11_Design C01_Design C02_Design C04_Design C09_Design Unsup_Design
 CHECK_DEADLOCK FALSE
